@@ -41,6 +41,26 @@ def run(ctx, n_hist=None, steps=None):
         if len(ctx.violations) >= 3:
             break
     tie.flush()
+    flush_nonmutating(ctx)
+
+
+def flush_nonmutating(ctx):
+    """the non-mutating questions collected by graph.check_nonmutating, put
+    to the Lean model `ForestOps` (theorems C16_nm*, C16Ops.lean)"""
+    pending, graph.NM_LINES[:] = list(graph.NM_LINES), []
+    if not pending or ctx.prop not in ("C16", "C04"):
+        return
+    if len(pending) > 20000:
+        pending = ctx.rng.sample(pending, 20000)
+    out = core.lean_batch("forestops", [l for l, _ in pending])
+    for (line, a), b in zip(pending, out):
+        if a != b:
+            ctx.tie_broken.append("correspondence:forestops %r impl=%s "
+                                  "lean=%s" % (line, a, b))
+            break
+    else:
+        ctx.traces += len(pending)
+    ctx.count("forestops-questions:%d" % (len(pending) // 1000 * 1000))
 
 
 def search(ctx, broken):
